@@ -243,3 +243,19 @@ func indexLoop(h *ssa.BasicBlock) (idx ssa.Value, bound ssa.Value, ok bool) {
 	}
 	return nil, nil, false
 }
+
+
+// pathToExit is pathAvoiding towards one exit alternative: when the alternative
+// is one incoming edge of a merged return (single-exit style `err = f(); if err
+// == nil { err = g() }; return err`), only paths arriving over that edge count.
+func pathToExit(fn *ssa.Function, from ssa.Instruction, e exitAlt, avoid func(ssa.Instruction) bool) ([]*ssa.BasicBlock, bool) {
+	old := pathEdgeFilter
+	pathEdgeFilter = func(p, s *ssa.BasicBlock) bool {
+		if old != nil && old(p, s) {
+			return true
+		}
+		return e.Pred != nil && s == e.Ret.Block() && p != e.Pred
+	}
+	defer func() { pathEdgeFilter = old }()
+	return pathAvoiding(fn, from, func(in ssa.Instruction) bool { return in == ssa.Instruction(e.Ret) }, avoid)
+}
